@@ -42,8 +42,8 @@ class Config(dict):
         i = self["instr"]
         if i == "asan":
             return ["-fsanitize=address,undefined", "-fno-sanitize-recover=all", "-fno-omit-frame-pointer",
-                    "-fno-sanitize=function"] if self["cc"] == "clang" else \
-                   ["-fsanitize=address,undefined", "-fno-sanitize-recover=all", "-fno-omit-frame-pointer"]
+                    "-fno-sanitize=function,pointer-overflow"] if self["cc"] == "clang" else \
+                   ["-fsanitize=address,undefined", "-fno-sanitize-recover=all", "-fno-omit-frame-pointer", "-fno-sanitize=pointer-overflow"]
         if i == "plain":
             return []
         if i in ("tsancb", "tsan"):
